@@ -423,11 +423,15 @@ def shrink(prop, case_text, work, pred_kind="oracle"):
     header = lines[0]
     body = [l for l in lines[1:] if l.strip() != "end"]
 
+    t_start = time.time()
+    limit = [600]   # per attempt; tightened to 3 x the time of the first (full) reproduction
+    total_budget = int(os.environ.get("VERIF_SHRINK_SECONDS", "240"))
+
     def fails(cand):
         p = os.path.join(work, "shrink.cases")
         with open(p, "w") as f:
             f.write(header + "\n" + "\n".join(cand) + ("\n" if cand else "") + "end\n")
-        rc, o, e = sh([HARNESS, "run", prop, p], env=dict(os.environ, VERIF_TMP=work), timeout=600)
+        rc, o, e = sh([HARNESS, "run", prop, p], env=dict(os.environ, VERIF_TMP=work), timeout=limit[0])
         bad = False
         kf = False
         for l in o.splitlines():
@@ -438,11 +442,13 @@ def shrink(prop, case_text, work, pred_kind="oracle"):
                 kf = True
         return bad and not kf
 
+    t0 = time.time()
     if not fails(body):
         return case_text  # not reproducible in isolation (schedule dependent): keep as is
+    limit[0] = max(20, int(3 * (time.time() - t0)) + 5)
     n = 2
     budget = 200
-    while len(body) >= 2 and budget > 0:
+    while len(body) >= 2 and budget > 0 and time.time() - t_start < total_budget:
         chunk = max(1, len(body) // n)
         reduced = False
         for i in range(0, len(body), chunk):
@@ -453,7 +459,7 @@ def shrink(prop, case_text, work, pred_kind="oracle"):
                 n = max(n - 1, 2)
                 reduced = True
                 break
-            if budget <= 0:
+            if budget <= 0 or time.time() - t_start >= total_budget:
                 break
         if not reduced:
             if chunk == 1:
